@@ -291,6 +291,13 @@ def _set_ctor(interp, st, args, kwargs):
     if isinstance(v, SV) and hasattr(v.ty, 'to_set'):
         yield st, v.ty.to_set(interp, st, v)
         return
+    if isinstance(v, SV) and hasattr(v.ty, 'elems'):
+        # any iterable with a set view (e.g. the chunk table of a snapshot body): a NEW set with those elements
+        src, et = v.ty.elems(interp, st, v)
+        r = ops.new_heap(st, sym.SetC(et))
+        st.heap.write(sym.SetC(et), 'm', r.z, src)
+        yield st, r
+        return
     raise Unsupported(f'set({v!r})')
 
 
@@ -430,6 +437,16 @@ def _any_all(is_any):
     def fn(interp, st, args, kwargs):
         (v,) = args
         rv = resolve(st, v)
+        if is_strlike(rv) and kind_of(rv) == BYTES:
+            # any(b) / all(b) over a bytes value: some / every byte is non-zero (uninterpreted predicate of the value)
+            f = interp.uf('any_nonzero_byte' if is_any else 'all_nonzero_bytes', BYTES, BOOL)
+            z = lift(rv, BYTES).z
+            if is_any:
+                bat = interp.uf('byte_at', BYTES, INT, INT)
+                i = z3.Int(sym.fresh_name('bi'))
+                st.assume(z3.Implies(z3.Not(f(z)), z3.ForAll([i], bat(z, i) == 0)))
+            yield st, SV(BOOL, f(z))
+            return
         if is_heap(rv, 'list') and rv.ty.cls.elem == BOOL:
             cls = rv.ty.cls
             arr, n = st.heap.read(cls, 'arr', rv.z), st.heap.read(cls, 'len', rv.z)
@@ -777,6 +794,12 @@ def set_method(interp, st, recv, name, args, kwargs):
         if et != cls.elem:
             raise Unsupported('set.update element type')
         st.heap.write(cls, 'm', recv.z, z3.Lambda([x], z3.Or(z3.Select(m, x), z3.Select(other, x))))
+        yield st, None
+    elif name == 'intersection_update':
+        other, et = elems_of(interp, st, args[0])
+        if et != cls.elem:
+            raise Unsupported('set.intersection_update element type')
+        st.heap.write(cls, 'm', recv.z, z3.Lambda([x], z3.And(z3.Select(m, x), z3.Select(other, x))))
         yield st, None
     elif name == 'difference_update':
         other, et = elems_of(interp, st, args[0])
